@@ -365,6 +365,39 @@ func VerifC04Replay() {
 	verifrt.Reach("end")
 }
 
+// VerifC04ReplayLate: lemma E3 across time – a handshake stays replayable for as long as its
+// hour stamp stays inside the window, so the filter has to remember it that long: A stamped
+// E+1 is accepted at server hour E, and is still refused *as a replay* one and two hours later
+// (its stamp is then E'+0 and E'-1); three hours later it is out of the window.
+func VerifC04ReplayLate() {
+	verifrt.Ideal()
+	verifrt.SetClock(vNow)
+	verifrt.OnIntn(func(n int) int { return 0 })
+	ctr := byte(0)
+	verifrt.OnRandBytes(func(n int) []byte {
+		ctr++
+		b := make([]byte, n)
+		for i := range b {
+			b[i] = ctr
+		}
+		return b
+	})
+	sf := vServerFactory()
+	a := vRequest(sf, 1, "a")
+	_, _, err := vSubmit(sf, a, "s1")
+	verifrt.Assert(err == nil, "fresh handshake A (stamped one hour ahead) accepted")
+	later := verifrt.Pick("hours_later", 1, 3)
+	// just before the end of that hour: the longest the entry has to survive
+	verifrt.SetClock((vNow/3600+int64(later))*3600 + 3599)
+	_, _, err = vSubmit(sf, a, "s2")
+	if later <= 2 {
+		verifrt.Assert(errors.Is(err, ErrReplayedHandshake), "A is still inside the window one / two hours later and is refused as a replay")
+	} else {
+		verifrt.Assert(err != nil, "three hours later A is outside the window")
+	}
+	verifrt.Reach("end")
+}
+
 // VerifC03TrailingGarbage: S1 – a genuine client handshake followed by extra bytes is not a
 // valid handshake ("the client never sends trailing garbage"): the server stays silent, also
 // for the maximal handshake length where the mark still sits at the tail of the 8192-byte window.
